@@ -99,6 +99,8 @@ type pathState struct {
 	allocLimit int64
 	decCache   map[decKey][]value
 	slicing    bool
+	ticks      int64
+	start      time.Time
 	atomSeen   map[int32]bool
 	allAtoms   []*Term
 }
@@ -160,6 +162,7 @@ type job struct {
 	inconclusive int
 	funcs       map[string]bool
 	rng         uint64
+	infeasibleWhy map[string]int
 	rel         string
 	wall        time.Duration
 	mapOrder    bool
@@ -168,7 +171,7 @@ type job struct {
 func newJob(name string, fn *ssa.Function, cfg *runConfig) *job {
 	j := &job{name: name, fn: fn, cfg: cfg,
 		statusCount: map[string]int{}, notCovered: map[string]int{},
-		violByLabel: map[string]int{}, covers: map[string]int{}, funcs: map[string]bool{}}
+		violByLabel: map[string]int{}, covers: map[string]int{}, funcs: map[string]bool{}, infeasibleWhy: map[string]int{}}
 	j.cond = sync.NewCond(&j.mu)
 	j.work = []*workItem{{}}
 	return j
